@@ -55,12 +55,12 @@ func init() {
 					Params: map[string]int64{"readers": r, "writers": w, "close": cl, "deadline": dl, "steps": steps}, AssertPrefix: "C08:"}
 			}
 			if tier == "thorough" {
-				return []gosym.RunConfig{mk(2, 2, 0, 0, 60), mk(2, 2, 1, 0, 70), mk(2, 1, 1, 1, 70), mk(3, 2, 0, 0, 90)}
+				return []gosym.RunConfig{mk(2, 2, 0, 0, 60), mk(2, 2, 1, 0, 70), mk(2, 1, 1, 1, 70), mk(3, 2, 0, 0, 90), mk(1, 0, 0, 1, 50), mk(2, 0, 0, 1, 60)}
 			}
-			return []gosym.RunConfig{mk(2, 2, 0, 0, 60), mk(2, 1, 1, 0, 60), mk(1, 1, 0, 1, 50)}
+			return []gosym.RunConfig{mk(2, 2, 0, 0, 60), mk(2, 1, 1, 0, 60), mk(1, 1, 0, 1, 50), mk(1, 0, 0, 1, 50), mk(2, 0, 0, 1, 60)}
 		},
 		Bounds: func(tier string) []string {
-			return []string{"2 readers x 2 writers; 2 readers x 1 writer x Close; 1 reader x 1 writer x SetReadDeadline(past) (thorough: also 2x2xClose, 2x1xClosexDeadline, 3x2): one operation per goroutine, every interleaving at lock/channel/select granularity, scheduler step bound discharged"}
+			return []string{"2 readers x 2 writers; 2 readers x 1 writer x Close; 1 reader x 1 writer x SetReadDeadline(past); 1 and 2 readers x SetReadDeadline(past) with no writer (thorough: also 2x2xClose, 2x1xClosexDeadline, 3x2): one operation per goroutine, every interleaving at lock/channel/select granularity, scheduler step bound discharged"}
 		},
 		Assume: []string{
 			"goroutines run atomically between scheduling points (Lock, channel operations, select, atomics); justified for data-race-free code (C19)",
